@@ -41,7 +41,8 @@ def bounds(tier, seed):
                 'formats': C01_FORMATS,
                 'core': 'files of 1..2 records x all 16 configurations x all k',
                 'extension_slice': '3-record files on configurations with (index+seed)%4==0'}
-    return {'max_records': 4, 'variants': [0, 1, 2], 'k': 'all 1..size+2', 'mixed_k2': [1, 3, 7, 'size'],
+    return {'max_records': 4, 'variants': [0, 1, 2], 'k': 'all 1..size+2', 'mixed_k2': [1, 'size'],
+            'four_record_files': 'variants 0 and 1 only (16 files); 1..3 records: all three variants',
             'formats': C01_FORMATS}
 
 
@@ -50,7 +51,7 @@ def shards(tier, seed):
     out = []
     for fmt in b['formats']:
         for n in range(1, b['max_records'] + 1):
-            for vs in itertools.product(b['variants'], repeat=n):
+            for vs in itertools.product(b['variants'] if (n <= 3 or tier == 'quick') else b['variants'][:2], repeat=n):
                 out.append({'fmt': fmt, 'variants': list(vs), 'tier': tier, 'seed': seed})
     # simplest first within a format is kept; interleave formats so that a cap cuts evenly
     out.sort(key=lambda d: (len(d['variants']), C01_FORMATS.index(d['fmt']), d['variants']))
